@@ -715,10 +715,11 @@ Print Assumptions C04_roundtrip_oneof_nonvacuous_os.
 (* every side condition is needed: all the other hypotheses hold (oneof_case_needs n: all but the n-th) and the round trip
    fails.  4 = oneof_keys_ok *)
 Example C04_roundtrip_oneof_needs_keys_ok :
-  OneofExamples.oneof_case_needs 4 OneofExamples.os (q "Ev") [(s "eid", vstr "e"); (s "ctype", vstr "x")] /\
+  defects_C04 OneofExamples.os (q "Ev") [(s "eid", vstr "e"); (s "ctype", vstr "x")] = [D4OneofMemberIsDiscriminator] /\
   OneofExamples.oneof_case_needs 4 OneofExamples.os (q "Dup")
     [(s "eid", vstr "e"); (s "pic", FM [(s "url", vstr "u")]); (s "leaf", FM [(s "a", vstr "x")])] /\
-  OneofExamples.oneof_case_needs 4 OneofExamples.os (q "Fl") [(s "eid", vstr "e"); (s "self", FM [(s "self", vstr "x")])].
+  (* (since confirmed on the emitted code and tagged: defect class D4FlatVariantFieldIsVariant) *)
+  defects_C04 OneofExamples.os (q "Fl") [(s "eid", vstr "e"); (s "self", FM [(s "self", vstr "x")])] = [D4FlatVariantFieldIsVariant].
 Proof. exact OneofExamples.oneof_needs_keys_ok. Qed.
 (* the generators' own validation accepts the message types of these witnesses *)
 Example C04_roundtrip_oneof_validator_accepts :
@@ -740,7 +741,8 @@ Proof. exact OneofExamples.oneof_needs_types_plain. Qed.
    another field (non-flattened); no defect class fires *)
 Example C04_roundtrip_oneof_needs_no_gap :
   OneofExamples.oneof_case_needs 7 OneofExamples.os (q "Fl") [(s "eid", vstr "e"); (s "pic", FM [(s "ob", FS (VBytes []))])] /\
-  OneofExamples.oneof_case_needs 7 OneofExamples.os (q "Fl") [(s "eid", vstr "e"); (s "pic", FM [(s "bm", FMap [(VBool true, vstr "x")])])] /\
+  (* (confirmed on the emitted code and tagged since: defect class D4FlatVariantBoolMap) *)
+  defects_C04 OneofExamples.os (q "Fl") [(s "eid", vstr "e"); (s "pic", FM [(s "bm", FMap [(VBool true, vstr "x")])])] = [D4FlatVariantBoolMap] /\
   OneofExamples.oneof_case_needs 7 OneofExamples.os (q "Ev")
     [(s "eid", vstr "e"); (s "note", FM [(s "fs", FL [FS (VFloat 9221120237041090561)])])] /\
   OneofExamples.oneof_case_needs 7 OneofExamples.os (q "Ev") [(s "eid", vstr "e"); (s "fo", FM [(s "alt_text", vstr "x")])].
